@@ -40,8 +40,9 @@ instance {N} : Inhabited (Value N) := ⟨.undef⟩
 
 def ofNats (l : List Nat) : Bytes := l.map UInt8.ofNat
 
-/-- `string_key::operator<`: `std::lexicographical_compare` with `char_traits<char>::lt`
-(unsigned bytes). -/
+/-- bytewise (unsigned) lexicographic order of byte strings: the order the specification
+assumes for object keys.  That `string_key::operator<` (translated in `Gen.keyLess`, used by
+the model as `mapLt`) *is* this order is `Props.key_order_is_bytewise_lexicographic`. -/
 def keyLt : Bytes → Bytes → Bool
   | _, [] => false
   | [], _ :: _ => true
